@@ -11,7 +11,7 @@ assert set(claimed) | set(na) == set(props), (sorted(set(props) - set(claimed) -
 assert not set(claimed) & set(na)
 m = {
     "version": 1,
-    "setup_cmd": "cd lean && lake build",
+    "setup_cmd": "/venv/bin/python tools/setup.py",
     "hooks": {
         "guard": "PYROLL_CORE_VERIF",
         "enable": "no instrumentation is compiled into /repo: every observation point is reachable from outside (DESIGN.md section 7); checks import /repo's working tree in-process",
